@@ -20,7 +20,8 @@ TIERS = {
 CLASSES = ['configurable', 'denylisted', 'not-allowlisted', 'unknown-no-varkw', 'unknown-varkw', 'varargs-name', 'unknown-configurable', 'method-bare']
 APIS = ['str', 'tuple', 'list', 'text', 'block', 'block-multi', 'files_and_bindings', 'hook']
 REQUIRED_BUCKETS = (['class:' + c for c in CLASSES] + ['api:' + a for a in APIS] + ['shape:fn', 'shape:init', 'shape:new', 'shape:method',
-                    'verdict:accepted', 'verdict:rejected', 'scoped', 'accepted-then-injected', 'rejected-then-not-injected', 'varkw-with-denylist'])
+                    'verdict:accepted', 'verdict:rejected', 'scoped', 'accepted-then-injected', 'rejected-then-not-injected', 'varkw-with-denylist',
+                    'special:reregister-with-denylist', 'special:reregister-interactive', 'special:decorated-function', 'special:two-hooks-second-rejected'])
 ORACLE_COUNTERS = ['oracle_evals', 'attempts']
 _S = {'plan': None}
 
@@ -33,7 +34,13 @@ def setup(ctx):
     _S['plan'] = None
     return plan
 
+  def hook2(config):
+    plan = _S.get('plan2')
+    _S['plan2'] = None
+    return plan
+
   gc.register_finalize_hook(hook)
+  gc.register_finalize_hook(hook2)
   _S['tmp'] = tempfile.mkdtemp(prefix='vf-c11-')
 
 
@@ -44,6 +51,10 @@ def finish(ctx):
 
 def iter_cases(ctx, rng, n):
   for i in range(n):
+    if i % 9 == 8:
+      yield {'special': rng.choice(['reregister-with-denylist', 'reregister-interactive', 'decorated-function', 'two-hooks-second-rejected']),
+             'api': rng.choice(['str', 'tuple', 'text', 'block']), 'scope': rng.choice(['', 'sc']), 'spelling': rng.choice(['short', 'mid', 'full'])}
+      continue
     cls = CLASSES[i % len(CLASSES)]
     api = APIS[(i // len(CLASSES)) % len(APIS)]
     shape = rng.choice(['fn', 'init', 'new', 'method']) if cls != 'method-bare' else 'method'
@@ -159,9 +170,111 @@ def call_and_receive(gin, p, case, avoid):
   return (recs[0].received if recs else None), None, K
 
 
+def bind_via(gin, api, scope, sel, param, value):
+  pre = scope + '/' if scope else ''
+  if api == 'str':
+    gin.bind_parameter('%s%s.%s' % (pre, sel, param), value)
+  elif api == 'tuple':
+    gin.bind_parameter((scope, sel, param), value)
+  elif api == 'text':
+    gin.parse_config('%s%s.%s = %r' % (pre, sel, param, value))
+  else:
+    gin.parse_config('%s%s:\n  %s = %r\n' % (pre, sel, param, value))
+
+
+def run_special(ctx, case):
+  """Multi-step histories: the accept/reject rule must follow the *current* registration and the *real* signature."""
+  import functools
+  import itertools
+  import gin
+  gin.clear_config()
+  kind, api, scope = case['special'], case['api'], case['scope']
+  ctx.bucket('special:' + kind)
+  n = next(_S.setdefault('ctr', itertools.count(1)))
+  name = 'c11s%d_%s' % (n, ctx.uid)
+  module = 'c11.sp.deep'
+  sel = {'short': name, 'mid': 'deep.' + name, 'full': module + '.' + name}[case['spelling']]
+  log = []
+
+  def f(x=0, y=0):
+    log.append(('f', x, y))
+  f.__name__ = name
+
+  def expect_rejected(param, why):
+    before = snap.full(gin)
+    try:
+      bind_via(gin, api, scope, sel, param, 'forbidden')
+      ctx.check(False, 'nonconfigurable-binding-accepted:' + kind, '%s: binding %s.%s via %s accepted although %s' % (kind, sel, param, api, why))
+    except Exception:  # pylint: disable=broad-except
+      ctx.count('oracle_evals')
+    ctx.check(snap.full(gin) == before, 'rejected-binding-changed-config', '%s: rejected binding changed the configuration' % kind)
+
+  if kind == 'reregister-with-denylist':
+    conf = gin.external_configurable(f, name, module=module)
+    bind_via(gin, api, scope, sel, 'y', 1)              # fine, and looks the configurable up through this spelling
+    gin.clear_config()
+    conf = gin.external_configurable(f, name, module=module, denylist=['y'])   # same object, same name: now y is denylisted
+    expect_rejected('y', 'the configurable was re-registered with y denylisted')
+    bind_via(gin, api, scope, sel, 'x', 5)
+    with gin.config_scope(scope or None):
+      gin.get_configurable(module + '.' + name)()
+    ctx.check(log[-1] == ('f', 5, 0), 'accepted-binding-not-injected', '%s: call received %r' % (kind, log[-1]))
+  elif kind == 'reregister-interactive':
+    gin.external_configurable(f, name, module=module)
+    bind_via(gin, api, scope, sel, 'y', 1)
+    gin.clear_config()
+
+    def g(x=0):
+      log.append(('g', x))
+    g.__name__ = name
+    with gin.config.interactive_mode():
+      gin.external_configurable(g, name, module=module)
+    expect_rejected('y', 'the name now refers to a function without parameter y')
+    bind_via(gin, api, scope, sel, 'x', 6)
+    with gin.config_scope(scope or None):
+      gin.get_configurable(module + '.' + name)()
+    ctx.check(log[-1] == ('g', 6), 'accepted-binding-not-injected', '%s: call received %r' % (kind, log[-1]))
+  elif kind == 'decorated-function':
+    def passthrough(fn):
+      @functools.wraps(fn)
+      def wrapper(*args, **kwargs):
+        return fn(*args, **kwargs)
+      return wrapper
+    decorated = passthrough(f)
+    if n % 2:
+      gin.external_configurable(decorated, name, module=module)
+    else:
+      gin.configurable(name, module=module)(decorated)
+    expect_rejected('zzz', 'the function behind the pass-through decorator has no such parameter')
+    expect_rejected('args', 'args is the decorator\'s *args, not a parameter')
+    bind_via(gin, api, scope, sel, 'y', 7)
+    with gin.config_scope(scope or None):
+      gin.get_configurable(module + '.' + name)()
+    ctx.check(log[-1] == ('f', 0, 7), 'accepted-binding-not-injected', '%s: call received %r' % (kind, log[-1]))
+  else:
+    gin.external_configurable(f, name, module=module, denylist=['y'])
+    bind_via(gin, api, scope, sel, 'x', 1)
+    before = snap.full(gin)
+    pre = scope + '/' if scope else ''
+    _S['plan'] = {'%s%s.x' % (pre, sel): 'from-first-hook', 'other/%s.x' % sel: 'from-first-hook-2'}
+    _S['plan2'] = {'%s%s.%s' % (pre, sel, ['y', 'nope'][n % 2]): 'rejected'}
+    try:
+      gin.finalize()
+      ctx.check(False, 'nonconfigurable-binding-accepted:' + kind, 'a hook returned a %s parameter and finalize accepted it' % ['denylisted', 'nonexistent'][n % 2])
+    except ValueError:
+      ctx.count('oracle_evals')
+    ctx.check(snap.full(gin) == before, 'rejected-binding-changed-config',
+              'finalize rejected the second hook\'s binding but the first hook\'s bindings were applied: %r' % (snap.diff(before['config'], snap.full(gin)['config']),))
+    _S['plan'] = _S['plan2'] = None
+  ctx.fp('special', kind, api, scope, case['spelling'])
+  gin.clear_config()
+
+
 def run_case(ctx, case):
   import gin
   from gin import config as gc
+  if 'special' in case:
+    return run_special(ctx, case)
   gin.clear_config()
   spec, cls, api, param = case['spec'], case['cls'], case['api'], case['param']
   p = probes.build(spec)
